@@ -57,7 +57,9 @@ func (rows *Rows) GetColumn(colname string) (col interface{}) {
 				return getUInt64Column(offset, rows.GetRowLen(), rows.GetNumRows(), rows.GetData())
 			case STRING16:
 				return getString16Column(offset, rows.GetRowLen(), rows.GetNumRows(), rows.GetData())
-			case BOOL, BYTE:
+			case BYTE:
+				return getInt8Column(offset, rows.GetRowLen(), rows.GetNumRows(), rows.GetData())
+			case BOOL:
 				return getByteColumn(offset, rows.GetRowLen(), rows.GetNumRows(), rows.GetData())
 			default:
 				log.Error("unexpected column type specified:", ds.Type)
